@@ -99,6 +99,9 @@ fn run(case: &C19Case) -> Check {
         chi_sum += st.chi2();
     }
     out.class(format!("family={}", fam0.family));
+    for r in fam0.regime() {
+        out.class(r);
+    }
     out.class(format!("p={p}"));
     out.class(if fam0.w.is_some() { "weighted" } else { "unweighted" });
     if !premise_ok {
@@ -183,7 +186,7 @@ impl Property for C19 {
         }
     }
     fn strategy(&self, tier: Tier) -> BoxedStrategy<C19Case> {
-        let cfg = FamCfg { max_s: 1, min_n: 12, max_n: 40, noise_lo: 3e-4, noise_hi: 3e-3, noiseless_16: 0, start_rel: 0.01, allow_f32: false, weights: false, calibrated_weights: true, extra_families: false, wide_weights: false, max_decays: 2 };
+        let cfg = FamCfg { max_s: 1, min_n: 12, max_n: 40, noise_lo: 3e-4, noise_hi: 3e-3, noiseless_16: 0, start_rel: 0.01, allow_f32: false, weights: false, calibrated_weights: true, extra_families: false, wide_weights: false, max_decays: 2, units: true, long_data: false };
         let reps = match tier {
             Tier::Quick => 4000,
             Tier::Thorough => 6000,
